@@ -207,6 +207,11 @@ class SortedLookupMapColumn(NoValueColumn):
     the current frame to the returned records. Returns an empty set if no records match.
     """
     key = tuple(_extract(val) for val in key)
+    # The sort columns may have been removed since this helper was created; fail as its creation would.
+    table = self._engine.tables[self.table_id]
+    for c in self._sort_col_ids:
+      if not table.has_column(c):
+        raise KeyError("Table %s has no column %s" % (self.table_id, c))
     self._relation_tracker.update_relation_from_current_node(key)
     row_ids, rel = self._lookup_col._do_lookup_with_sort(key, self._sort_spec, self._sort_key)
     return row_ids, rel
